@@ -48,6 +48,9 @@ func runC20(p *Prog, r *Report) {
 	r.Floor("C20.R1", n, 8, "middlewares")
 	c20Wrappers(p, r)
 	c20Tables(p, r)
+	// R5: headers are relayed by adding them to the client writer's, through a helper that adds every value (relay shape shared with C07.R2)
+	checkCopyHeadersHelper(p, r, "C20.R5", true, true)
+	r.Borrow(p, runC07, map[string]string{"C07.R2": "C20.R5"}, nil)
 }
 
 func isFallbackServe(in ssa.Instruction) bool {
